@@ -359,9 +359,45 @@ def nested_unions():
     return out
 
 
+class Routing(State):          # containers inside a Mapping: the caller keeps references to the inner ones as well
+    routes: Mapping[str, Sequence[int]] = {}
+    tags: Mapping[str, Set[str]] = {}
+    nested: Mapping[str, Mapping[str, int]] = {}
+    pairs: Mapping[str, tuple[int, ...]] = {}
+
+
+def nested_in_mapping():
+    out = []
+    routes, tags, nested, pairs = {"web": [1, 2]}, {"a": {"x"}}, {"n": {"k": 1}}, {"p": [1, 2]}
+    r = Routing(routes=routes, tags=tags, nested=nested, pairs=pairs)
+    twin = Routing(routes={"web": (1, 2)}, tags={"a": frozenset({"x"})}, nested={"n": {"k": 1}}, pairs={"p": (1, 2)})
+    snap = repr(r)
+    if r != twin or twin != r:
+        out.append("states built from equal mappings (lists vs tuples inside) are not equal")
+    upd = r.updated(unknown=1, tags={"b": {"y"}})
+    c = copy.copy(r)
+    routes["web"].append(3); routes["new"] = [9]; tags["a"].add("z"); nested["n"]["k"] = 2; nested["n"]["m"] = 3; pairs["p"].append(3)
+    if repr(r) != snap:
+        out.append(f"mutating the containers inside a dict passed to the constructor changed the state: {snap} -> {r!r}")
+    if r != twin:
+        out.append("after mutating the argument containers the state no longer equals an instance that was equal to it")
+    if c != r or repr(c) != snap:
+        out.append("a copy taken before the argument containers were mutated differs from the original afterwards")
+    if repr(upd.routes) != repr(twin.routes) or dict(upd.tags) != {"b": frozenset({"y"})}:
+        out.append(f"updated(tags=...) gave routes={upd.routes!r} tags={upd.tags!r}")
+    for label, act in (("r.routes['web'].append(4)", lambda: r.routes["web"].append(4)), ("r.tags['a'].add('q')", lambda: r.tags["a"].add("q")),
+                       ("r.nested['n']['k'] = 5", lambda: r.nested["n"].__setitem__("k", 5)), ("r.routes['x'] = ()", lambda: r.routes.__setitem__("x", ()))):
+        try:
+            act()
+            out.append(f"{label} was accepted: a container inside a Mapping attribute is mutable")
+        except (AttributeError, TypeError):
+            pass
+    return out
+
+
 def main():
     sys.stdin.read()
-    p = problems() or repeated_validation() or nested_unions()
+    p = problems() or repeated_validation() or nested_unions() or nested_in_mapping()
     if p:
         print(json.dumps(dict(reproduced=True, detail=dict(problems=p[:5]), cases_tried=1)))
     else:
